@@ -6,6 +6,6 @@ for d in seeded/*/; do
   id=$(basename $d); [ -f $d/patch.diff ] || continue
   prop=${id:0:3}
   out=$(tools/seeded_eval.sh $id $prop 2>&1)
-  if echo "$out" | grep -q '^VIOLATION'; then v="caught: $(echo "$out" | grep -m1 'signature=' | sed 's/^ *//')"; else v="MISSED"; fi
+  if echo "$out" | grep -q '^VIOLATION'; then v="caught: $(echo "$out" | grep -A1 '^VIOLATION' | grep -m1 'signature=' | sed 's/^ *//')"; else v="MISSED"; fi
   echo "$id $prop $v"
 done
